@@ -50,6 +50,7 @@ type Scenario struct {
 	Waiters   []int // observers to Wait() on
 	Slow      int
 	EarlyStop bool
+	SubPanic  bool // obs-safe only: the subscribe function hands the destination to the producers, waits until a value is being delivered and then PANICS (C07 / C01 / C02: the Error made from the panic is serialised with the producers' notifications)
 	Chain     bool // plain observable kinds: the observer is attached through TapOnSubscribe | Scan (a pass-through operator and an operator with unsynchronised state)
 }
 
@@ -141,6 +142,14 @@ func Gen(r *rand.Rand) Scenario {
 	}
 	sc.Slow = 1 + r.Intn(6)
 	sc.Chain = !isSubj && len(sc.PanicTd) == 0 && r.Intn(3) == 0
+	if sc.Kind == "obs-safe" && len(sc.PanicTd) == 0 && r.Intn(5) == 0 {
+		// the subscribe function panics while its producers are already emitting: no teardown is ever returned
+		sc.SubPanic = true
+		sc.Adds, sc.Waiters, sc.Unsubs = nil, nil, nil
+		for o := range sc.InsideAt {
+			sc.InsideAt[o] = -1
+		}
+	}
 	return sc
 }
 
@@ -170,6 +179,8 @@ func RunWithLog(lg *rec.Log, sc Scenario, seed int64) []rec.Ev {
 		states[i] = &obsState{}
 	}
 	slow := sc.Slow
+	inCb := make(chan struct{}, 1)   // a value callback has begun (SubPanic scenarios)
+	destReady := make(chan struct{}) // the subscribe function has handed out the destination (SubPanic scenarios)
 	mkObserver := func(o int) ro.Observer[int] {
 		st := states[o]
 		maybeInside := func() {
@@ -188,6 +199,13 @@ func RunWithLog(lg *rec.Log, sc Scenario, seed int64) []rec.Ev {
 		return ro.NewObserverWithContext(
 			func(ctx context.Context, v int) {
 				lg.Add(rec.Ev{E: "cbB", O: o, P: rec.PofCtx(ctx), K: "N", V: v, I: rec.CallOfCtx(ctx)})
+				if sc.SubPanic {
+					select {
+					case inCb <- struct{}{}:
+					default:
+					}
+					rec.Slow(slow + 3)
+				}
 				rec.Slow(slow)
 				maybeInside()
 				lg.Add(rec.Ev{E: "cbE", O: o, K: "N"})
@@ -223,7 +241,47 @@ func RunWithLog(lg *rec.Log, sc Scenario, seed int64) []rec.Ev {
 		f()
 	}
 
+	var wg sync.WaitGroup
+	start := make(chan struct{})
 	var target ro.Observer[int] // what producers call
+	var dest ro.Observer[int]
+	startProducers := func() {
+		for p := range sc.Scripts {
+			p := p
+			wg.Add(1)
+			go func() {
+				defer wg.Done()
+				r := rand.New(rand.NewSource(seed*1000 + int64(p)))
+				ctx := rec.WithP(base, p)
+				if sc.SubPanic {
+					<-destReady
+				} else {
+					<-start
+				}
+				tgt := target
+				if sc.SubPanic {
+					tgt = dest
+				}
+				pctx := ctx
+				for ci, n := range sc.Scripts[p] {
+					jitter(r)
+					ctx := rec.WithCall(pctx, ci)
+					lg.Add(rec.Ev{E: "callB", P: p, K: n.K, V: n.V, I: ci})
+					guarded(p, 0, func() {
+						switch n.K {
+						case "N":
+							tgt.NextWithContext(ctx, n.V)
+						case "E":
+							tgt.ErrorWithContext(ctx, errCause[n.V])
+						case "C":
+							tgt.CompleteWithContext(ctx)
+						}
+					})
+					lg.Add(rec.Ev{E: "callE", P: p, K: n.K, V: n.V})
+				}
+			}()
+		}
+	}
 	var subj ro.Subject[int]
 	switch sc.Kind {
 	case "subj-publish":
@@ -244,8 +302,18 @@ func RunWithLog(lg *rec.Log, sc Scenario, seed int64) []rec.Ev {
 			states[o].sub.Store(s)
 		}
 	} else {
-		var dest ro.Observer[int]
-		fn := func(d ro.Observer[int]) ro.Teardown { dest = d; return mkTd(0) }
+		fn := func(d ro.Observer[int]) ro.Teardown {
+			dest = d
+			if sc.SubPanic {
+				close(destReady)
+				select {
+				case <-inCb:
+				case <-time.After(20 * time.Millisecond):
+				}
+				panic(errCause[3])
+			}
+			return mkTd(0)
+		}
 		var ob ro.Observable[int]
 		switch sc.Kind {
 		case "obs-safe":
@@ -259,41 +327,28 @@ func RunWithLog(lg *rec.Log, sc Scenario, seed int64) []rec.Ev {
 			acc := 0
 			ob = ro.Pipe2(ob, ro.TapOnSubscribe[int](func() {}), ro.Scan(func(a int, v int) int { acc += v; return v }, 0))
 		}
-		lg.Add(rec.Ev{E: "addB", I: 0, O: 0, P: 15})
-		s := ob.SubscribeWithContext(base, mkObserver(0))
-		lg.Add(rec.Ev{E: "addE", I: 0, P: 15})
-		states[0].sub.Store(s)
+		if sc.SubPanic {
+			// the Subscribe call is the "producer call" of the Error made from the panic (pseudo-producer 9); the real producers start as
+			// soon as the destination exists, i.e. while Subscribe is still running
+			startProducers()
+			lg.Add(rec.Ev{E: "callB", P: 9, K: "E", V: 3, I: 0})
+			var s ro.Subscription
+			guarded(9, 0, func() { s = ob.SubscribeWithContext(rec.WithCall(rec.WithP(base, 9), 0), mkObserver(0)) })
+			lg.Add(rec.Ev{E: "callE", P: 9, K: "E", V: 3})
+			if s != nil {
+				states[0].sub.Store(s)
+			}
+		} else {
+			lg.Add(rec.Ev{E: "addB", I: 0, O: 0, P: 15})
+			s := ob.SubscribeWithContext(base, mkObserver(0))
+			lg.Add(rec.Ev{E: "addE", I: 0, P: 15})
+			states[0].sub.Store(s)
+		}
 		target = dest
 	}
 
-	var wg sync.WaitGroup
-	start := make(chan struct{})
-	for p := range sc.Scripts {
-		p := p
-		wg.Add(1)
-		go func() {
-			defer wg.Done()
-			r := rand.New(rand.NewSource(seed*1000 + int64(p)))
-			ctx := rec.WithP(base, p)
-			<-start
-			pctx := ctx
-			for ci, n := range sc.Scripts[p] {
-				jitter(r)
-				ctx := rec.WithCall(pctx, ci)
-				lg.Add(rec.Ev{E: "callB", P: p, K: n.K, V: n.V, I: ci})
-				guarded(p, 0, func() {
-					switch n.K {
-					case "N":
-						target.NextWithContext(ctx, n.V)
-					case "E":
-						target.ErrorWithContext(ctx, errCause[n.V])
-					case "C":
-						target.CompleteWithContext(ctx)
-					}
-				})
-				lg.Add(rec.Ev{E: "callE", P: p, K: n.K, V: n.V})
-			}
-		}()
+	if !sc.SubPanic {
+		startProducers()
 	}
 	for j, o := range sc.Unsubs {
 		j, o := j, o
